@@ -31,7 +31,11 @@ def value_menu(rng):
     # mostly ordinary years, sometimes a boundary of the four-digit year field (1, 99, 999, 1000, 9999)
     y = rng.randrange(1990, 2035) if rng.random() < 0.85 else rng.choice([2, 7, 99, 814, 999, 1000, 1582, 9998])
     dt = datetime(y, rng.randrange(1, 13), rng.randrange(1, 28), rng.randrange(24), rng.randrange(60), rng.randrange(60))
+    gap = rng.choice([("Europe/Berlin", datetime(2024, 3, 31, 2, 30)), ("America/New_York", datetime(2024, 3, 10, 2, 30)),
+                      ("Australia/Lord_Howe", datetime(2024, 10, 6, 2, 15)), ("Europe/Berlin", datetime(2024, 10, 27, 2, 30))])
     menu = [
+        # a wall clock the zone skips (or repeats): the value supplied is what must come back
+        ("dtstart", gap[1].replace(tzinfo=zi(gap[0])), "zoned"), ("exdate", [gap[1].replace(tzinfo=zi(gap[0]))], "list-zoned"),
         ("summary", rng.choice(["Meeting", "a;b,c", "line1\nline2", "é€😀", "", "x" * 100]), "text"),
         ("description", "some text " + "y" * rng.randrange(0, 120), "text"),
         ("description", "é" * rng.randrange(0, 40) + "x" * rng.randrange(0, 80) + rng.choice(["\ufeff", "\u2028", "€", "\U0001F600"]) + "tail", "text"),
